@@ -179,12 +179,15 @@ def gen_unary(rnd, n):
     out = []
     for _ in range(n):
         arr = rnd.random() < 0.3
-        out.append(dict({"ev": "arith", "op": rnd.choice(["neg", "abs", "pos"]), "np": rnd.random() < 0.5,
+        out.append(dict({"ev": "arith", "op": rnd.choice(["neg", "abs", "abs", "pos"]),
+                         "np": rnd.choice(["abs", "np.abs", "np.absolute", "np.fabs"]),
                          "ph": phase(rnd, im=rnd.random() < 0.25, n=rnd.choice([2, 4]) if arr else None)}, **form(rnd)))
     return out
 
 
-UNNORMALISED = [(1234.75, 0.8), (0.3, 0.4), (P52 - 2, 1.75), (100000.3, -123.7), (2.0 ** 51 + 0.5, 0.5), (-0.5, -0.5),
+UNNORMALISED = [(0.1, 1000.0), (0.3, 2.0 ** 40 + 0.5), (-0.7, 12345.25), (1e-3, 2.0 ** 51), (0.1, -1000.0),
+                (123.456, 98765.4321), (2.0 ** 51 + 0.5, 2.0 ** 50 + 0.25), (-(2.0 ** 51) - 0.5, -(2.0 ** 51) + 0.75),
+                (1e-9, 1e9 + 0.1), (0.4999999999999999, 2.0 ** 52 - 1), (1234.75, 0.8), (0.3, 0.4), (P52 - 2, 1.75), (100000.3, -123.7), (2.0 ** 51 + 0.5, 0.5), (-0.5, -0.5),
                 (P52 - 1, 0.9999999), (1e-320, 5e-324), (2.5, 0.0), (3.5, 0.0), (-2.5, 0.0), (0.5, 0.0), (1.5, 1.0),
                 (7.0, 0.5), (8.0, -0.5), (1e15 + 0.125, 0.375), (-1e15, 0.4999999999999999), (0.75, 0.75), (1e9, 1e-9),
                 (123456.789, 987.654321), (2.0 ** 52, -0.75), (-(2.0 ** 52), 0.25), (1.2, 0.0), (0.1, 0.2)]
@@ -206,6 +209,8 @@ def gen_new(rnd, n):
             y0 = rnd.choice([fraction(rnd), rnd.uniform(-3, 3), count(rnd, big=False) + 0.25])
             if abs(x0) + abs(y0) > P52:
                 y0 = fraction(rnd)
+        if rnd.random() < 0.5:
+            x0, y0 = y0, x0                      # every magnitude ordering: the small / non-integral part first
         kx = rnd.choice(["pycomplex", "cycleq", "arrcomplex"] if im else NEW_KINDS)
         m = 3 if kx in pd.ARRAY_KINDS else 1
 
@@ -288,6 +293,46 @@ def gen_trig(rnd, n):
     return out
 
 
+def gen_seq(rnd, n):
+    """several operations reusing the SAME operand objects (arrays, Quantities, Phases,
+    scalars): each judged against the values logged before the first use, and every
+    operand must still hold those values afterwards"""
+    out = []
+    for _ in range(n):
+        mulfam = rnd.random() < 0.65
+        im = rnd.random() < 0.45
+        arr = rnd.random() < 0.7
+        m = rnd.choice([2, 3]) if arr else None
+        ph = phase(rnd, big=False, im=im, n=m, tiny=False)
+        if mulfam:
+            fim = rnd.random() < 0.6
+            kind = rnd.choice(["arrcomplex", "arrcomplex", "dimlessarr", "pycomplex", "npcomplex", "dimless"] if fim else
+                              ["arrn", "arrint", "dimlessarr", "dimscaledarr", "pyfloat", "arr0"])
+
+            def val(integer):
+                return rnd.choice([2, 3, -1, 5]) if integer else rnd.choice([0.5, 1.5, -2.0, 0.75, 3.0, -0.25, 1.25])
+            o = other_for(rnd, kind, val, m or 1, fim)
+            ops = ["mul", "div"]
+        else:
+            kind = rnd.choice(["arrcomplex", "cycleqarr", "phasearr", "pycomplex"] if im else
+                              ["arrn", "cycleqarr", "phasearr", "arrint", "angle", "pyfloat"])
+            if kind == "phasearr":
+                o = as_phase_ot(phase(rnd, big=False, im=im, n=m or 2, tiny=False))
+            else:
+                def val(integer):
+                    c = count(rnd, big=False)
+                    return int(c) if integer else c + rnd.choice([0.0, 0.5, 0.25, fraction(rnd, False)])
+                o = other_for(rnd, kind, val, m or 1, im)
+            ops = ["add", "sub"]
+        steps = []
+        for _k in range(rnd.choice([2, 2, 3])):
+            op = rnd.choice(ops)
+            st = dict({"op": op, "ord": "po" if op == "div" else rnd.choice(["po", "po", "op"])}, **form(rnd))
+            steps.append(st)
+        out.append({"ev": "seq", "ph": ph, "ot": o, "steps": steps})
+    return out
+
+
 def fixed_cases():
     """the hand-written edge cases (always present, independent of the seed)"""
     one = {"i": [hx(3.0)], "f": [hx(0.2)], "im": False, "shape": None}
@@ -357,9 +402,10 @@ def fixed_cases():
 def recipes(rnd, scale):
     rc = fixed_cases()
     rc += gen_new(rnd, 200 * scale)
-    rc += gen_addsub(rnd, 420 * scale)
-    rc += gen_muldiv(rnd, 560 * scale)
+    rc += gen_addsub(rnd, 380 * scale)
+    rc += gen_muldiv(rnd, 500 * scale)
     rc += gen_unary(rnd, 150 * scale)
+    rc += gen_seq(rnd, 110 * scale)
     rc += gen_divmod(rnd, 290 * scale)
     rc += gen_trig(rnd, 60 * scale)
     return rc
